@@ -410,7 +410,7 @@ def _model_init(sp, a, v):
 
 def _model_getitem(sp, a, v):
     m = _model_for(sp, a[0])
-    m.add(a[0].clone())
+    m.add(a[0].clone() if v == 0 else _other_rationality_twin(sp, a[0]))
     return m[a[0]].node.obj      # the object the returned view refers to (owned by the model)
 
 
@@ -439,11 +439,23 @@ def _catalogue(method):
     return f
 
 
+def _other_rationality_twin(sp, o):
+    """A same-shape object of the OTHER rationality (built from copies; not an operand)."""
+    if o.rational:
+        return type(o)(*o.bases, np.array(o.controlpoints[..., :-1]), False, raw=True)
+    return o.clone().force_rational()
+
+
 def _orientation(sp, a, v):
     o = a[0]
+    comp = _mod(sp, 'splinemodel').Orientation.compute
     if v == 0:
-        return _mod(sp, 'splinemodel').Orientation.compute(o)
-    return _mod(sp, 'splinemodel').Orientation.compute(o, a[1])
+        return comp(o)
+    if v == 1:
+        return comp(o, a[1])
+    # mixed rational / non-rational comparison against a same-shape twin, in both argument orders
+    twin = _other_rationality_twin(sp, o)
+    return comp(o, twin) if v == 2 else comp(twin, o)
 
 
 # --- io ------------------------------------------------------------------------------------------
@@ -662,7 +674,8 @@ SM = 'SplineModel.'
 op(SM + '__init__', 'fresh', 'O', _model_init, note='objs=[patch]: result = the model')
 op(SM + 'add', 'fresh', 'O', _model_add, variants=2,
    note='result = the model after add(patch): its state must not alias the patch')
-op(SM + '__getitem__', 'fresh', 'O', _model_getitem, note='lookup of a patch: the node object reached must not be the operand')
+op(SM + '__getitem__', 'fresh', 'O', _model_getitem, variants=2,
+   note='lookup of a patch (v=1: the model holds a twin of the other rationality): the node object reached must not be the operand')
 op(SM + 'cps', 'query', 'O', _model_cps)
 for _n in ('add_callback', 'boundary', 'assign_boundary', 'generate_cp_numbers', 'generate_cell_numbers', 'faces',
            'summary', 'write_ifem'):
@@ -673,7 +686,7 @@ for _n in ('add', 'lookup', '__call__', '__getitem__'):
 for _n in ('__init__', 'add_callback', 'top_nodes', 'nodes'):
     op(OC + _n, 'no_operand')
 OR = 'Orientation.'
-op(OR + 'compute', 'query', 'OO', _orientation, variants=2)
+op(OR + 'compute', 'query', 'OO', _orientation, variants=4)
 for _n in ('__init__', 'pardim', '__mul__', 'map_array', 'map_section', 'view_section', 'ifem_format'):
     op(OR + _n, 'no_operand')
 
